@@ -1,6 +1,6 @@
 (* C32 — lemmas about the model of SFTPServer._check_file. *)
 From Coq Require Import ZArith List Bool Lia ZifyBool.
-From PV Require Import Bytes C32.
+From PV Require Import Bytes C32_gen C32.
 Import ListNotations.
 Open Scope Z_scope.
 
@@ -249,7 +249,7 @@ Lemma trace_ok chunk file start length bs :
             (spec_blocks start (range_stop size start length) (eff_bs size start length bs)) /\
     Forall (Forall (read_ok chunk)) T.
 Proof.
-  intros Hc Hs size Hbs. unfold check_trace. fold size.
+  intros Hc Hs size Hbs. unfold check_trace. fold size. change MIN_BLOCK with 256.
   destruct (eff_bs size start length bs <? 256) eqn:E; [lia|].
   destruct (outer_ok chunk file Hc (outer_fuel size (start + eff_length size start length) start)
                      (start + eff_length size start length) (eff_bs size start length bs) start [] Hs)
@@ -271,7 +271,7 @@ Lemma small_block_rejected hash chunk file start length bs :
   eff_bs (Z.of_nat (List.length file)) start length bs < 256 ->
   check_file hash chunk file start length bs = Fail SFTP_FAILURE.
 Proof.
-  intros H. unfold check_file, check_trace.
+  intros H. unfold check_file, check_trace. change MIN_BLOCK with 256.
   destruct (eff_bs (Z.of_nat (List.length file)) start length bs <? 256) eqn:E; [reflexivity|lia].
 Qed.
 
@@ -320,3 +320,13 @@ Proof.
     assert (Hn : rdlen size offset chunklen = 0) by (unfold rdlen; lia).
     rewrite Hn. apply IH; lia.
 Qed.
+
+(* ---- the constants of the source --------------------------------------------------------- *)
+Lemma source_constants : MIN_BLOCK = 256 /\ 0 < SOURCE_CHUNK.
+Proof. split; reflexivity. Qed.
+
+Lemma digests_source hash file start length bs :
+  0 <= start ->
+  256 <= eff_bs (Z.of_nat (List.length file)) start length bs ->
+  check_file hash SOURCE_CHUNK file start length bs = Sums (spec_sums hash file start length bs).
+Proof. intros. apply digests; [reflexivity|assumption|assumption]. Qed.
